@@ -46,8 +46,10 @@ WellFormed(t) ==
                         /\ \A i \in 1..(Len(t[2]) - 1) : LexLt(t[2][i][1], t[2][i + 1][1], 1)
        [] OTHER -> FALSE
 
-(* where two well-formed trees differ: <<>> when equal, else a path of list indices and
-   dictionary keys ending in the kind of difference *)
+(* where two well-formed trees differ: <<>> when equal, else a path ending in the kind of
+   difference.  Path elements are positions: the index in a list, the position of the key in
+   a mapping (keys are sorted, so positions identify keys; "lost-key" positions refer to the
+   first tree, "new-key" positions to the second).  Positions keep the verdict short. *)
 RECURSIVE Diff(_, _)
 Diff(a, b) ==
   IF a[1] # b[1] THEN <<"tag", a[1], b[1]>>
@@ -60,9 +62,9 @@ Diff(a, b) ==
     IF ka # kb THEN
        LET onlyA == {i \in 1..Len(ka) : \A j \in 1..Len(kb) : kb[j] # ka[i]}
            onlyB == {j \in 1..Len(kb) : \A i \in 1..Len(ka) : kb[j] # ka[i]}
-       IN IF onlyA # {} THEN <<"lost-key", ka[Min(onlyA)]>> ELSE <<"new-key", kb[Min(onlyB)]>>
+       IN IF onlyA # {} THEN <<"lost-key", Min(onlyA)>> ELSE <<"new-key", Min(onlyB)>>
     ELSE LET bad == {i \in 1..Len(a[2]) : a[2][i][2] # b[2][i][2]}
-         IN IF bad = {} THEN <<>> ELSE <<ka[Min(bad)]>> \o Diff(a[2][Min(bad)][2], b[2][Min(bad)][2])
+         IN IF bad = {} THEN <<>> ELSE <<Min(bad)>> \o Diff(a[2][Min(bad)][2], b[2][Min(bad)][2])
   ELSE IF a = b THEN <<>> ELSE <<"value">>
 
 TreeEq(a, b) == a = b     \* on well-formed trees native equality is structural equality
